@@ -253,11 +253,11 @@ CBlock CloneBlock(const CBlock& b)
     return c;
 }
 
-FaultOutcome DeliverFault(ChainSim& sim, CBlock& b, bool commit_witness, bool finalize)
+FaultOutcome DeliverFault(ChainSim& sim, CBlock& b, bool commit_witness, bool finalize, bool with_utxo_hash)
 {
     FaultOutcome o;
     o.tip_before = sim.TipHash();
-    o.utxo_before = sim.UtxoHash();
+    if (with_utxo_hash) o.utxo_before = sim.UtxoHash();
     b.fChecked = false;
     b.m_checked_witness_commitment = false;
     b.m_checked_merkle_root = false;
@@ -274,7 +274,7 @@ FaultOutcome DeliverFault(ChainSim& sim, CBlock& b, bool commit_witness, bool fi
         o.debug = d.verdict->GetDebugMessage();
     }
     o.tip_after = sim.TipHash();
-    o.utxo_after = sim.UtxoHash();
+    if (with_utxo_hash) o.utxo_after = sim.UtxoHash();
     o.became_tip = o.tip_after == o.hash;
     return o;
 }
